@@ -105,6 +105,20 @@ pub fn random_definitions(seed: u64, n: usize) -> Vec<Definition> {
                 3 => (true, false),
                 _ => (true, true),
             };
+            if k % 17 == 16 {
+                // huge definitions: several hundred states, many lookup tables and jump tables
+                let mut d = defs::random_def(&mut rng, &format!("Rnd{}", k), false, true);
+                for j in 0..rng.range(4, 9) {
+                    let mut extra = defs::random_def(&mut rng, "x", false, j % 2 == 0);
+                    for (i, p) in extra.pats.drain(..).enumerate() {
+                        let mut p = p;
+                        p.var = format!("W{}_{}", j, i);
+                        p.prio = 100 + 40 * j + p.prio;
+                        if !d.pats.iter().any(|q| q.lit == p.lit) { d.pats.push(p); }
+                    }
+                }
+                return Definition { id: format!("random/{}", k), origin: "random".into(), source: defs::enum_source(&d) };
+            }
             if k % 6 == 5 {
                 // rich definitions: subpatterns, error types, extras, lifetimes, callbacks of every form
                 let src = defs::rich_def_source(&mut rng, &format!("Rnd{}", k));
